@@ -480,8 +480,51 @@ def w_exhaustive(arg):
     return rec
 
 
+def w_stubs(arg):
+    """public and private halves coexist, and so do private keys whose secret material is elsewhere (gpg --export-secret-subkeys, card keys: the
+    subkey packet is a stub).  A message for two recipients, one loaded as a stub and one as a complete private key, in both load orders and both
+    role assignments: key(message) must yield a key that can decrypt it -- which is tried."""
+    import pgpy
+    from pgpy.constants import SymmetricKeyAlgorithm
+    seed = arg
+    rec = harness.Rec()
+    names = [('ed25519-0', 'cv25519-0'), ('dsa1024-0', 'ecdh-p256-0')]
+
+    def blob(prim, sub, form):
+        full = keypool.ref_cert(prim, uids=('Stub Test %s <st@example.org>' % prim,), subkeys=((sub, 0x0C),), secret=True)
+        if form == 'full':
+            return full
+        a, c_, params, _s, curve, kdf = keypool.numbers(sub)
+        from ..refpgp import keys as rkeys
+        pk = wire.split_packets(full)
+        return b''.join(wire.build_packet(7, rkeys.build_gnu_dummy_body(a, c_, params, curve, kdf, mode=1 + seed % 2, serial=bytes(range(6)))) if p.tag == 7 else p.raw for p in pk)
+    pubs = [keypool.pgpy_key(keypool.ref_cert(pr, uids=('Stub Test %s <st@example.org>' % pr,), subkeys=((sb, 0x0C),), secret=False)) for pr, sb in names]
+    sk = SymmetricKeyAlgorithm.AES128.gen_key()
+    e = list(pubs[0].subkeys.values())[0].encrypt(pgpy.PGPMessage.new(b'to both'), cipher=SymmetricKeyAlgorithm.AES128, sessionkey=sk)
+    msg = bytes(list(pubs[1].subkeys.values())[0].encrypt(e, cipher=SymmetricKeyAlgorithm.AES128, sessionkey=sk))
+    for stub_i in (0, 1):
+        for order in (0, 1):
+            case = {'kind': 'stubs', 'seed': seed, 'stub': stub_i, 'order': order}
+            rec.case(('stubs', stub_i, order), True, ('selector/message-with-a-stub-recipient', 'stub/%d' % stub_i, 'load-order/%d' % order),
+                     {'recipients': [n[1] for n in names], 'loaded_as_stub': names[stub_i][1], 'loaded_complete': names[1 - stub_i][1], 'load_order_reversed': bool(order)})
+            try:
+                kr = pgpy.PGPKeyring()
+                blobs = [blob(names[i][0], names[i][1], 'stub' if i == stub_i else 'full') for i in (0, 1)]
+                for b in (blobs[::-1] if order else blobs):
+                    kr.load(b)
+                with kr.key(pgpy.PGPMessage.from_blob(msg)) as k:
+                    got = str(k.fingerprint)
+                    out = k.decrypt(pgpy.PGPMessage.from_blob(msg)).message
+                    out = out.encode() if isinstance(out, str) else bytes(out)
+                if out != b'to both':
+                    rec.finding('invariant', 'selector-msg-stub', case, 'decrypted %r' % out)
+            except Exception as e:   # noqa
+                rec.finding('invariant', 'selector-msg-stub', case, 'a complete private recipient is loaded but the key that key(message) yields cannot decrypt: %r' % (e,))
+    return rec
+
+
 def run(tier, seed):
-    tasks = []
+    tasks = [('w_stubs', seed)]
     L = 4 if tier == 'quick' else 5
     for p in range(6):
         tasks.append(('w_exhaustive', (p, 6, L)))
@@ -496,6 +539,8 @@ def dispatch(task):
 
 
 def replay(case):
+    if case.get('kind') == 'stubs':
+        return [(f['clause'], f['cause'], f['detail']) for f in w_stubs(case['seed']).findings]
     return run_ops(case['ops'])
 
 
